@@ -1,5 +1,5 @@
 From Coq Require Import PrimFloat ZArith List Bool.
-From MV Require Import Ops FloatFun FInst Vec Cplx Mat Hop Hopper Propagate Traj R02.
+From MV Require Import Ops FloatFun FInst Vec Cplx Mat Hop Hopper Propagate Traj Cumulative R02.
 Import ListNotations.
 Open Scope float_scope.
 (* n, masses, dt, poisson, zeta, e0 (H,tau,force), e1, eigh(W_impl), state before (x, v, rho, active, time),
@@ -20,3 +20,31 @@ Definition chkT (c : caseT) : bool :=
   && cclose_ll 0x1p-38 (prho s') irho
   && Nat.eqb (pact s') ia && fclose 0 0 (ptime s') it
   && fclose (0x1p-40 * (ihop + 0x1p-40)) 0x1p-30 hp ihop.
+Definition elecL : Type := (list (list float) * list (list (list float)) * list (list float))%type.
+Definition caseE : Type :=
+  (nat * list float * float * elecL * elecL * list float * cmat
+   * (list float * list float * cmat * nat * float)
+   * (list float * list float * cmat * nat * float))%type.
+Definition chkE (c : caseE) : bool :=
+  let '(n, m, dt, (H0, t0, F0), (H1, t1, F1), lam, Cm, (x, v, rho, a, t), (ix, iv, irho, ia, it)) := c in
+  let '(s', _) := step_eh FOps n m dt (mkElec H0 t0 F0) (mkElec H1 t1 F1) lam Cm (mkT x v rho a t) in
+  fclose_l (0x1p-44 * lmaxa ix) 0 (px s') ix
+  && fclose_l (0x1p-36 * lmaxa iv) 0 (pv s') iv
+  && cclose_ll 0x1p-38 (prho s') irho
+  && Nat.eqb (pact s') ia && fclose 0 0 (ptime s') it.
+(* cumulative: cstate before (prob_cum, zeta, remaining zeta_list, next generator numbers); after (prob_cum, zeta, zeta_list) *)
+Definition caseC : Type :=
+  (nat * list float * float * elecL * elecL * list float * cmat
+   * (list float * list float * cmat * nat * float)
+   * (float * float * list float * list float)
+   * (list float * list float * cmat * nat * float * float)
+   * (float * float * list float))%type.
+Definition chkC (c : caseC) : bool :=
+  let '(n, m, dt, (H0, t0, F0), (H1, t1, F1), lam, Cm, (x, v, rho, a, t), (pc, zc, zl, st), (ix, iv, irho, ia, it, ihop), (pc1, zc1, zl1)) := c in
+  let '(s', c', hp, _) := step_cum FOps n m dt (mkElec H0 t0 F0) (mkElec H1 t1 F1) lam Cm (mkT x v rho a t) (mkC pc zc zl st) in
+  fclose_l (0x1p-44 * lmaxa ix) 0 (px s') ix
+  && fclose_l (0x1p-36 * lmaxa iv) 0 (pv s') iv
+  && cclose_ll 0x1p-38 (prho s') irho
+  && Nat.eqb (pact s') ia && fclose 0 0 (ptime s') it
+  && fclose (0x1p-40 * (ihop + 0x1p-40)) 0x1p-30 hp ihop
+  && fclose 0x1p-44 0x1p-44 (acc c') pc1 && fclose 0 0 (zeta c') zc1 && fclose_l 0 0 (zlist c') zl1.
